@@ -91,6 +91,10 @@ def handle : P String := do
     let n ← nextNat
     pure (" ".intercalate ((hsInits n).map showBits) ++ " # " ++
       " ".intercalate ((List.range (n - 1)).map (fun i => showBits (hsInitClosed n (i + 1)))))
+  | "QFTD" =>
+    -- QFT(n, accelerators=...): the distributed gate order
+    let n ← nextNat
+    pure (showGates (qftDist n))
   | "PHASE" =>
     -- phase_encoder on n qubits; rot: 0 = RX, 1 = RY, 2 = RZ
     let n ← nextNat
